@@ -218,6 +218,20 @@ def run_problem(ctx, g, rng, high_e=False, large=False, many=False):
             continue
         ll0 = cf["ll"]
         # model sanity: Lean Q model on the same rationals (ivar = 1/var exactly here, s folded in by the model)
+        if i < 2 and c["k"] > 6:
+            # large k: certified evaluation (certificates computed here, checked in Lean; Kernel.certified_eval_sound)
+            iv = np.array([1.0 / float(v) ** 2 for v in c["sigma"]])
+            lam_d = np.array([float(v) for v in lam])
+            mres = kern.lean_eval_cert(ctx, M, c["y"], iv, th["s"], c["mu"], lam_d)
+            if "singular" not in mres:
+                if not (mres.get("checkInv") and mres.get("checkLU")):
+                    raise core.Infra(f"Lean rejected the harness' own certificates (case {g}, row {i}): {mres}")
+                var_m = [1 / F(float(v)) + F(th["s"]) ** 2 for v in iv]
+                cf_m = oracle.closed_form(M, c["y"], var_m, mu, [F(float(v)) for v in lam_d])
+                ctx.count("model_sanity_checks")
+                ctx.count("model_sanity_checks_certified_large_k")
+                if not cf_m["singular"] and (core.rat(mres["chi2"]) != cf_m["chi2"] or core.rat(mres["detB"]) != cf_m["detB"]):
+                    raise core.Infra(f"certified Lean kernel model disagrees with the dense closed form (case {g}, row {i})")
         if i < 2 and c["k"] <= 6:      # the Lean determinant is a Leibniz sum: k! terms
             iv = np.array([1.0 / float(v) ** 2 for v in c["sigma"]])
             # feed the model doubles: sigma^2 is generally not a double, so compare against the closed form built
@@ -292,4 +306,5 @@ def post(ctx):
         ctx.require("p>=2 problems", c["p=2"] + c["p=3"], 4)
         ctx.require("model sanity checks", c["model_sanity_checks"], 10)
         ctx.require("problems with >= 10 survey offsets", c["many_surveys"], 2)
+        ctx.require("certified Lean evaluations with k > 6", c["model_sanity_checks_certified_large_k"], 2)
         ctx.require("libraries mixing s == 0 and s > 0 rows", c["mixed_jitter_library"], 3)
